@@ -6,6 +6,7 @@ import (
 	"context"
 	"errors"
 	"fmt"
+	"io"
 	"sort"
 	"strconv"
 	"strings"
@@ -70,24 +71,37 @@ func FileFor(kind string, es []Entry) (name string, content string) {
 	switch kind {
 	case "uri":
 		for _, e := range es {
-			fmt.Fprintf(&b, "/e%d %s\n", e.Idx, e.Tag)
+			if e.Tag == "" {
+				fmt.Fprintf(&b, "/e%d\n", e.Idx)
+			} else {
+				fmt.Fprintf(&b, "/e%d %s\n", e.Idx, e.Tag)
+			}
 		}
 		return "/ammo.uri", b.String()
 	case "uripost":
 		for _, e := range es {
 			body := fmt.Sprintf("body%d", e.Idx)
-			fmt.Fprintf(&b, "%d /e%d %s\n%s\n", len(body), e.Idx, e.Tag, body)
+			if e.Tag == "" {
+				fmt.Fprintf(&b, "%d /e%d\n%s\n", len(body), e.Idx, body)
+			} else {
+				fmt.Fprintf(&b, "%d /e%d %s\n%s\n", len(body), e.Idx, e.Tag, body)
+			}
 		}
 		return "/ammo.uripost", b.String()
 	case "raw":
 		for _, e := range es {
-			req := fmt.Sprintf("GET /e%d HTTP/1.1\r\nHost: h\r\n\r\n", e.Idx)
-			fmt.Fprintf(&b, "%d %s\n%s\n", len(req), e.Tag, req)
+			body := fmt.Sprintf("rb%d", e.Idx)
+			req := fmt.Sprintf("POST /e%d HTTP/1.1\r\nHost: h\r\nContent-Length: %d\r\n\r\n%s", e.Idx, len(body), body)
+			hdr := strconv.Itoa(len(req))
+			if e.Tag != "" {
+				hdr += " " + e.Tag
+			}
+			fmt.Fprintf(&b, "%s\n%s\n", hdr, req)
 		}
 		return "/ammo.raw", b.String()
 	case "jsonl":
 		for _, e := range es {
-			fmt.Fprintf(&b, "{\"host\":\"h\",\"method\":\"GET\",\"uri\":\"/e%d\",\"tag\":\"%s\"}\n", e.Idx, e.Tag)
+			fmt.Fprintf(&b, "{\"host\":\"h\",\"method\":\"POST\",\"uri\":\"/e%d\",\"tag\":\"%s\",\"body\":\"jb%d\"}\n", e.Idx, e.Tag, e.Idx)
 		}
 		return "/ammo.jsonl", b.String()
 	case "jsona":
@@ -96,7 +110,7 @@ func FileFor(kind string, es []Entry) (name string, content string) {
 			if i > 0 {
 				b.WriteString(",\n")
 			}
-			fmt.Fprintf(&b, "{\"host\":\"h\",\"method\":\"GET\",\"uri\":\"/e%d\",\"tag\":\"%s\"}", e.Idx, e.Tag)
+			fmt.Fprintf(&b, "{\"host\":\"h\",\"method\":\"POST\",\"uri\":\"/e%d\",\"tag\":\"%s\",\"body\":\"jb%d\"}", e.Idx, e.Tag, e.Idx)
 		}
 		b.WriteString("]\n")
 		return "/ammo.json", b.String()
@@ -138,6 +152,22 @@ func FileFor(kind string, es []Entry) (name string, content string) {
 type Built struct {
 	P     core.Provider
 	Ident func(a core.Ammo) int
+	// Full (http kinds): the entry index when method, path, body and tag of the acquired ammo
+	// are what the file says for that entry (the body is read the way a gun does), else -1000-idx.
+	Full func(a core.Ammo) int
+}
+
+// ExpectedHTTP is what the file of a kind says about entry e.
+func ExpectedHTTP(kind string, e Entry) (method, body string) {
+	switch kind {
+	case "uri":
+		return "GET", ""
+	case "uripost":
+		return "POST", fmt.Sprintf("body%d", e.Idx)
+	case "raw":
+		return "POST", fmt.Sprintf("rb%d", e.Idx)
+	}
+	return "POST", fmt.Sprintf("jb%d", e.Idx)
 }
 
 func idxOf(s, prefix string) int {
@@ -175,7 +205,7 @@ func Build(kind string, preload bool, limit, passes int, es []Entry, chosen []st
 		if err != nil {
 			return nil, err
 		}
-		return &Built{P: p, Ident: func(a core.Ammo) int {
+		ident := func(a core.Ammo) int {
 			ga, ok := a.(httpammo.GunAmmo)
 			if !ok {
 				return -1
@@ -186,7 +216,38 @@ func Build(kind string, preload bool, limit, passes int, es []Entry, chosen []st
 				return -1
 			}
 			return idxOf(req.URL.Path, "/e")
-		}}, nil
+		}
+		byIdx := map[int]Entry{}
+		for _, e := range es {
+			byIdx[e.Idx] = e
+		}
+		full := func(a core.Ammo) int {
+			ga, ok := a.(httpammo.GunAmmo)
+			if !ok {
+				return -1
+			}
+			req, sample := ga.Request()
+			if req == nil || req.URL == nil {
+				return -1
+			}
+			i := idxOf(req.URL.Path, "/e")
+			e, known := byIdx[i]
+			if !known {
+				return -1
+			}
+			var body []byte
+			if req.Body != nil {
+				body, _ = io.ReadAll(req.Body)
+				_ = req.Body.Close()
+			}
+			method, wantBody := ExpectedHTTP(kind, e)
+			tags := sample.Tags()
+			if req.Method != method || string(body) != wantBody || tags != e.Tag {
+				return -1000 - i
+			}
+			return i
+		}
+		return &Built{P: p, Ident: ident, Full: full}, nil
 	case "grpcjson":
 		p := grpcjson.NewProvider(fs, grpcjson.Config{File: name, Limit: limit, Passes: passes, ChosenCases: chosen})
 		return &Built{P: p, Ident: func(a core.Ammo) int {
